@@ -300,6 +300,8 @@ func main() {
 	phase("core trees")
 	os1 := partOnce(rp)
 	phase("first-only sampler")
+	sb := partSiblings(rp)
+	phase("hook siblings")
 	hs := partHistories(rp, run.Thorough())
 	phase("AtomicLevel histories")
 
@@ -329,15 +331,15 @@ func main() {
 		"loggers are non-development, without caller annotation, and with stack traces switched off (AddStacktrace(never)): by default zap captures a stack for every level above Fatal, which is irrelevant here and slow",
 		"other front ends that end in Logger.Check (zapio.Writer, the std-log bridge, zapslog, zaptest) are covered by their own properties (C17, C13, C18)",
 	}
-	samples := append(append(append([]any{}, ts.samples...), os1.sample), hs.samples...)
+	samples := append(append(append([]any{}, ts.samples...), os1.sample, sb.sample), hs.samples...)
 	run.Finish(map[string]any{
 		"states":                        hs.states,
 		"transitions":                   hs.steps,
 		"traces_validated_against_impl": hs.sequences,
-		"evaluations":                   ts.calls + ts.levelChecks + os1.calls + hs.steps + hs.levelChecks,
+		"evaluations":                   ts.calls + ts.levelChecks + os1.calls + sb.calls + hs.steps + hs.levelChecks,
 		"distinct_nontrivial":           ts.nontrivial,
-		"rule": fmt.Sprintf("(a) every core tree with <= %d nodes over leaves {observer, JSON IO core over a counting sink} x 9 enablers and wrappers Tee(2-3 ordered children), NewIncreaseLevelCore x 9 enablers, RegisterHooks, NewSampler (budget never exhausted), a dropping sampler (first=0, thereafter=0: declines every named-level entry in Check), NewLazyWith, With; trees whose IncreaseLevel must be refused are checked for the error (and, at the root, for the no-effect behaviour of the zap.IncreaseLevel option) and not evaluated further; each accepted tree (x 4 values of the shared AtomicLevel when it uses it) is driven at all 256 levels (<= %d nodes) or 12 boundary levels through %d front ends (raw Core.Check+Write, Logger.Log/Check+Write/named methods, SugaredLogger Log/Logf/Logw/Logln and named methods in four styles, zapgrpc Info/Warning/Error/Fatal/Print families) and Enabled at all 256 levels, LevelOf, Logger.Level, V(0..3); non-trivial = the reference delivers the entry to some leaf at some evaluated level and withholds it from some leaf at some level; all enumerated trees are structurally distinct, distinct_behaviours counts distinct reference delivery tables. (a') %d shapes around a first-only sampler (first=1, thereafter=0), each driven twice per level with the same message on a fresh tree per front end (3 front ends; sampling budgets are per level and message): the second call must reach nothing below the sampler. (b) %s",
-			maxN, fullUpTo, len(frontEnds), os1.shapes, hs.rule),
+		"rule": fmt.Sprintf("(a) every core tree with <= %d nodes over leaves {observer, JSON IO core over a counting sink} x 9 enablers and wrappers Tee(2-3 ordered children), NewIncreaseLevelCore x 9 enablers, RegisterHooks, NewSampler (budget never exhausted), a dropping sampler (first=0, thereafter=0: declines every named-level entry in Check), NewLazyWith, With; trees whose IncreaseLevel must be refused are checked for the error (and, at the root, for the no-effect behaviour of the zap.IncreaseLevel option) and not evaluated further; each accepted tree (x 4 values of the shared AtomicLevel when it uses it) is driven at all 256 levels (<= %d nodes) or 12 boundary levels through %d front ends (raw Core.Check+Write, Logger.Log/Check+Write/named methods, SugaredLogger Log/Logf/Logw/Logln and named methods in four styles, zapgrpc Info/Warning/Error/Fatal/Print families) and Enabled at all 256 levels, LevelOf, Logger.Level, V(0..3); non-trivial = the reference delivers the entry to some leaf at some evaluated level and withholds it from some leaf at some level; all enumerated trees are structurally distinct, distinct_behaviours counts distinct reference delivery tables. (a') %d shapes around a first-only sampler (first=1, thereafter=0), each driven twice per level with the same message on a fresh tree per front end (3 front ends; sampling budgets are per level and message): the second call must reach nothing below the sampler. (a'') hook siblings: %d cases = leaf {observer[debug], io[warn]} x {zapcore.RegisterHooks, zap.Hooks option} x a parent with k = 0..8 hooks registered one at a time x 2 or 3 siblings derived from that one parent object with 1 or 2 own hooks each x every order of using the siblings and the parent, each at 8 levels through 3 front ends: exactly the hooks on the path of the logger used fire, once each, iff the leaf accepts. (b) %s",
+			maxN, fullUpTo, len(frontEnds), os1.shapes, sb.cases, hs.rule),
 		"samples":                    samples,
 		"exhaustive":                 true,
 		"trees_enumerated":           ts.trees,
@@ -349,6 +351,8 @@ func main() {
 		"distinct_behaviours":        len(ts.behaviours),
 		"once_shapes_evaluated":      os1.evaluated,
 		"once_log_calls":             os1.calls,
+		"hook_sibling_cases":         sb.cases,
+		"hook_sibling_calls":         sb.calls,
 		"history_sequences":          hs.sequences,
 		"history_level_queries":      hs.levelChecks,
 		"max_nodes":                  maxN,
@@ -375,6 +379,17 @@ func replay(run *ev.Run, rp *reporter, file string) {
 	}
 	if err := json.Unmarshal(b, &doc); err != nil {
 		ev.ToolError("replay: %v", err)
+	}
+	if doc.Case.Part == "siblings" {
+		fmt.Printf("replaying key %s (all hook-sibling cases)\n", doc.Key)
+		partSiblings(rp)
+		rp.flush()
+		hit := rp.byKey()[doc.Key] > 0
+		fmt.Printf("replay: recorded key reproduced: %v\n", hit)
+		if hit {
+			os.Exit(1)
+		}
+		os.Exit(0)
 	}
 	n, err := parseTree(doc.Case.Tree)
 	if err != nil {
